@@ -21,7 +21,7 @@ KINDS = ["win", "win", "win", "place", "eachway", "eachway", "twin", "line", "wi
 
 
 def plan(tier, seed):
-    n = 1800 if tier == "quick" else 60000
+    n = 6000 if tier == "quick" else 70000
     # directed case for the listed finding C08-line-tie (struck line == result, both sides on one fill)
     return [{"seed": seed, "idx": 0, "kind": "line", "force_tie": True}] + [{"seed": seed, "idx": i, "kind": KINDS[i % len(KINDS)]} for i in range(1, n)]
 
